@@ -36,6 +36,18 @@ LEVEL_NOTE = "Leaf of a key = keccak(last written value, or the default if never
 TECHNIQUE = "model-based + differential property testing vs reference sparse Merkle tree; bounded-exhaustive 2-op histories for key_size=1"
 
 DEFAULTS = [b"", b"\x00", b"default"]
+EMPTY_NODE = b"\xff<empty-subtree-node>"
+EMPTY_HASH = b"\xff<empty-subtree-hash>"
+
+
+def resolve_smt_val(val, ref):
+    """Special values that coincide with nodes of the tree itself."""
+    if val.startswith(EMPTY_NODE):
+        lvl = max(ref.depth - val[-1], 1)
+        return ref.defaults[lvl] + ref.defaults[lvl]
+    if val.startswith(EMPTY_HASH):
+        return ref.defaults[max(ref.depth - val[-1], 0)]
+    return val
 
 
 def _flipbit(key, pos):
@@ -57,11 +69,16 @@ def smt_ops(max_ops):
         st.tuples(st.just("flip"), st.integers(0, 255)),
         st.tuples(st.just("flip"), st.sampled_from([0, 7, 8, 9, -1, -2, 15, 16])),
         st.tuples(st.just("rand"), st.binary(min_size=32, max_size=32)),
+        st.tuples(st.just("compl"), st.integers(0, 255)),
         st.tuples(st.just("prev"), st.integers(0, 20)),
         st.tuples(st.just("prev"), st.integers(0, 20)),
     )
     val = st.one_of(st.binary(min_size=1, max_size=4), st.binary(min_size=1, max_size=40),
-                    st.sampled_from([b"", b"\x00", b"default", b"\x01"]))
+                    st.sampled_from([b"", b"\x00", b"default", b"\x01"]),
+                    # resolved at run time: the encoding of an empty-subtree node j levels above
+                    # the leaves / the hash of such a node (values that look like tree nodes)
+                    st.sampled_from([EMPTY_NODE + bytes([j]) for j in range(4)]
+                                    + [EMPTY_HASH + bytes([j]) for j in range(3)]))
     syn = st.integers(0, 1)
     op = st.one_of(
         st.tuples(st.just("set"), kspec, val, syn),
@@ -107,6 +124,12 @@ def resolve_smt_key(spec, ks, base, written):
         return _flipbit(b, spec[1])
     if spec[0] == "rand":
         return spec[1][:ks]
+    if spec[0] == "compl":
+        # the base key with every bit from position p on complemented
+        n = ks * 8
+        p = spec[1] % n
+        i = int.from_bytes(b, "big") ^ ((1 << (n - p)) - 1)
+        return i.to_bytes(ks, "big")
     if written:
         return written[spec[1] % len(written)]
     return b
@@ -161,6 +184,7 @@ def run_case(case):
     delete_nonblank = False
     for no, (kind, kspec, val, syn) in enumerate(case["ops"]):
         k = resolve_smt_key(kspec, ks, case["base"], written)
+        val = resolve_smt_val(val, ref)
         if kind == "set":
             if syn:
                 ret = impl("set", tree.__setitem__, k, val)
